@@ -2,7 +2,7 @@
 
 use super::sgen::{SProfile, SScenario};
 use super::sview::{End, SView, GRAN_NS};
-use crate::engines::server::{run_server, SOp};
+use crate::engines::server::{run_server, run_server_opts, SOp};
 use crate::sim::exec::TaskState;
 use crate::sim::hist::{Ev, IoOp, IoRes, Msg};
 use crate::sim::runner::{CaseOk, CaseResult, Violation};
@@ -468,13 +468,20 @@ pub fn c12_check(sc: &SScenario) -> CaseResult {
     ops.push(SOp::Drain);
     ops.push(SOp::Budget { n: 255 });
     ops.push(SOp::Drain);
-    let run = run_server(&sc.cfg, &ops, true);
+    // strict sink: a throttle reply written without its own poll_ready is refused by the sink, as a bounded queue would
+    let run = run_server_opts(&sc.cfg, &ops, true, true);
     let v = SView::new(&run);
     if let Some(m) = common(&v) {
         return fail(&v, m);
     }
     if let Some(m) = v.model_violations.first() {
         return fail(&v, m.clone());
+    }
+    if let Some((eseq, name)) = &v.stream_err {
+        // no faults are injected in C12 scenarios: the sink only fails when it is written to while full
+        return fail(&v, format!(
+            "the channel failed with a {name} error (seq {eseq}) while throttling although the transport never failed on its own: a reply was written to a sink that had not reported readiness, so a refused request got no throttle response"
+        ));
     }
     let mut admitted_after_cycle = false;
     let mut throttled_any = false;
@@ -747,6 +754,16 @@ pub fn c10s_check(sc: &SScenario) -> CaseResult {
             }
         }
         classes.insert("server:stream-ended");
+        // ... and only after everything written was flushed
+        // (socket-like model only: in the bounded-queue model a flush completes while items are still queued)
+        if let Some(q) = v.quiescent.iter().find(|q| q.seq > es && !sc.cfg.independent) {
+            if q.probes.buffered > 0 {
+                return fail(&v, format!(
+                    "the channel's stream ended (seq {es}) while {} written response(s) were still unflushed in the transport",
+                    q.probes.buffered
+                ));
+            }
+        }
     }
     // it ends at the first quiescence at which inbound is closed, nothing is in flight and everything is flushed
     for q in v.quiescent.iter().filter(|q| q.seq > closed && !v.tainted_any) {
